@@ -331,108 +331,109 @@ def r05_send_skeleton(ctx):
     anchor_attrs(ctx, "AshProtocol", "_tx_seq", "_rx_seq", "_ncp_state", "_pending_data_frames", "_t_rx_ack", "_send_data_frame_semaphore")
     N = const(ctx, ASH, "ACK_TIMEOUTS", int)
     ctx.anchor(N >= 1, "ACK_TIMEOUTS >= 1")
-    f, px, paths, ns = explore_send(ctx)
-    ctx.fn(f)
-    ctx.paths += len(paths)
-    ctx.anchor(len(paths) >= 20, f"_send_data_frame explored only {len(paths)} paths")
-    ctx.run.shared.setdefault("tx_seq_visited", set()).update(px.visited)
-    tx0 = 5
-    for p in paths:
-        ws, aw = send_writes(p), send_awaits(p)
-        pid = "/".join(str(e.extra).replace("raises ", "") for e in aw) or "-"
-        bad = None
-        # R05.1
-        if len(ws) > N:
-            bad = f"R05.1 {len(ws)} DATA writes in one send (budget {N})"
-        # R05.2 / R05.3
-        for k, w in enumerate(ws):
-            if bad:
-                break
-            fr = w.args[0] if w.args else None
-            if not is_frame(fr, "DataFrame"):
-                bad = f"R05.2 write #{k} sends {fr!r}, not a DATA frame built from the caller's frame"
-                break
-            kw = fr.fields
-            if kw.get("ezsp_frame") != Sym("payload"):
-                bad = f"R05.2 write #{k} carries payload {kw.get('ezsp_frame')!r}, not the caller's payload"
-            elif kw.get("frm_num") != tx0:
-                bad = f"R05.2 write #{k} carries frame number {kw.get('frm_num')!r}, the send took {tx0}"
-            elif bool(kw.get("re_tx")) != (k > 0) or isinstance(kw.get("re_tx"), Sym):
-                bad = f"R05.3 write #{k} has re_tx={kw.get('re_tx')!r}"
-            elif kw.get("ack_num") != Sym("rx"):
-                bad = f"R05.2 write #{k} carries ack_num {kw.get('ack_num')!r}, not the current expected number"
-        txw = [e for e in p.events if e.kind == "write" and e.what == "self._tx_seq"]
-        if not bad and ws:
-            if len(txw) != 1 or txw[0].args[0] != (tx0 + 1) % 8:
-                bad = f"R05.2 send counter written {[e.args[0] for e in txw]!r}, must advance once to {(tx0 + 1) % 8}"
-            elif p.events.index(txw[0]) > p.events.index(ws[0]):
-                bad = "R05.2 send counter advanced after the first write"
-        if not bad and not ws and txw:
-            pass  # number consumed without a write is tolerated only if the path raises (checked below)
-        # R05.5 gate
-        if not bad:
+    # quick tier: the send counter at 5 (R05.2 covers the successor for every value); thorough tier: all paths for every counter value
+    for tx0 in (range(8) if ctx.run.tier == "thorough" else (5,)):
+        f, px, paths, ns = explore_send(ctx, tx_seq=tx0)
+        ctx.fn(f)
+        ctx.paths += len(paths)
+        ctx.anchor(len(paths) >= 20, f"_send_data_frame explored only {len(paths)} paths")
+        ctx.run.shared.setdefault("tx_seq_visited", set()).update(px.visited)
+        for p in paths:
+            ws, aw = send_writes(p), send_awaits(p)
+            pid = "/".join(str(e.extra).replace("raises ", "") for e in aw) or "-"
+            bad = None
+            # R05.1
+            if len(ws) > N:
+                bad = f"R05.1 {len(ws)} DATA writes in one send (budget {N})"
+            # R05.2 / R05.3
             for k, w in enumerate(ws):
-                st = ncp_state_at(p, w.epoch)
-                if st is None:
-                    bad = f"R05.5 write #{k} is not preceded, in the same event-loop turn, by a test of the link state"
-                elif st != ns["CONNECTED"]:
-                    bad = f"R05.5 write #{k} happens although the link state was read as {st!r}"
                 if bad:
                     break
-        if not bad:
-            for k, v in p.assumes:
-                if k.startswith("volatile:self._ncp_state@") and v == ns["FAILED"]:
-                    ep = int(k.rsplit("@", 1)[1])
-                    later = [w for w in ws if w.epoch >= ep]
-                    if later or not p.raised("NcpFailure"):
-                        bad = f"R05.5 link state read as FAILED but the send {'writes again' if later else 'does not raise NcpFailure'}"
-        # R05.7 exhaustion
-        fails = [e for e in p.events if e.kind == "call" and e.what.endswith("_enter_failed_state")]
-        notif = [e for e in p.events if upward(e) and e.what.endswith(".reset_received")]
-        last = str(aw[-1].extra) if aw else ""
-        exhausted = len(ws) == N and len(aw) == N and last in ("raises NotAcked", "raises TimeoutError")
-        if not bad:
-            if exhausted and (len(fails) != 1 or len(notif) != 1):
-                bad = f"R05.7 budget exhausted by {last[7:]} but failed state entered {len(fails)}x, upper layer told {len(notif)}x"
-            elif exhausted and p.terminal != "raise":
-                bad = "R05.7 budget exhausted but the send returns normally"
-            elif not exhausted and (fails or notif):
-                bad = f"R05.7 failed state entered although the budget is not exhausted ({len(ws)} writes, last outcome {last})"
-        # R05.8
-        if not bad:
-            if p.terminal == "return" and not (aw and aw[-1].extra is True):
-                bad = f"R05.8 send returns normally although its last wait ended with {last or 'nothing'}"
-            elif p.terminal == "raise" and aw and aw[-1].extra is True and not any(v == ns["FAILED"] for _, v in p.assumes):
-                bad = f"R05.8 acknowledged send raises {p.value!r}"
-            elif p.store["self"].get("_pending_data_frames") != {}:
-                bad = f"R05.8 pending entry left behind: {p.store['self'].get('_pending_data_frames')!r}"
-        # after a NAK or timeout (not last) the very next event of interest is another gate+write or a raise
-        if not bad:
-            for i, e in enumerate(aw[:-1]):
-                if str(e.extra) in ("raises NcpFailure", "raises CancelledError") or e.extra is True:
-                    bad = f"R05.8 attempt continues after outcome {e.extra!r}"
-        # R05.9 semaphore
-        if not bad:
-            for w in ws:
-                if not any(c.endswith("_send_data_frame_semaphore") for c in w.ctx):
-                    bad = "R05.9 DATA write outside the transmit-window semaphore"
-            for e in aw:
-                if not any(c.endswith("asyncio_timeout") for c in e.ctx):
-                    bad = "R05.4 acknowledgement wait is not inside asyncio_timeout"
-        if bad:
-            ctx.violation(f"_send_data_frame:{bad.split(' ')[0]}", f"path [{pid}]: {bad}", func=f, trace=p.trace(90),
-                          construct=bad.split(" ")[0])
-        else:
-            ctx.ok(1, pid)
-    # paths abandoned by the explorer's loop bound: an attempt loop that is still writing DATA frames after the budget
-    # is a violation in its own right (the loop is not bounded by ACK_TIMEOUTS)
-    for p in px.truncated_paths:
-        n_w = len(send_writes(p))
-        if n_w > N:
-            ctx.violation("_send_data_frame:R05.1", f"R05.1 the attempt loop is still writing after {n_w} DATA writes "
-                          f"(budget {N}); outcomes so far: {[str(e.extra) for e in send_awaits(p)][:12]}", func=f,
-                          trace=p.trace(60), construct="R05.1")
-            break
+                fr = w.args[0] if w.args else None
+                if not is_frame(fr, "DataFrame"):
+                    bad = f"R05.2 write #{k} sends {fr!r}, not a DATA frame built from the caller's frame"
+                    break
+                kw = fr.fields
+                if kw.get("ezsp_frame") != Sym("payload"):
+                    bad = f"R05.2 write #{k} carries payload {kw.get('ezsp_frame')!r}, not the caller's payload"
+                elif kw.get("frm_num") != tx0:
+                    bad = f"R05.2 write #{k} carries frame number {kw.get('frm_num')!r}, the send took {tx0}"
+                elif bool(kw.get("re_tx")) != (k > 0) or isinstance(kw.get("re_tx"), Sym):
+                    bad = f"R05.3 write #{k} has re_tx={kw.get('re_tx')!r}"
+                elif kw.get("ack_num") != Sym("rx"):
+                    bad = f"R05.2 write #{k} carries ack_num {kw.get('ack_num')!r}, not the current expected number"
+            txw = [e for e in p.events if e.kind == "write" and e.what == "self._tx_seq"]
+            if not bad and ws:
+                if len(txw) != 1 or txw[0].args[0] != (tx0 + 1) % 8:
+                    bad = f"R05.2 send counter written {[e.args[0] for e in txw]!r}, must advance once to {(tx0 + 1) % 8}"
+                elif p.events.index(txw[0]) > p.events.index(ws[0]):
+                    bad = "R05.2 send counter advanced after the first write"
+            if not bad and not ws and txw:
+                pass  # number consumed without a write is tolerated only if the path raises (checked below)
+            # R05.5 gate
+            if not bad:
+                for k, w in enumerate(ws):
+                    st = ncp_state_at(p, w.epoch)
+                    if st is None:
+                        bad = f"R05.5 write #{k} is not preceded, in the same event-loop turn, by a test of the link state"
+                    elif st != ns["CONNECTED"]:
+                        bad = f"R05.5 write #{k} happens although the link state was read as {st!r}"
+                    if bad:
+                        break
+            if not bad:
+                for k, v in p.assumes:
+                    if k.startswith("volatile:self._ncp_state@") and v == ns["FAILED"]:
+                        ep = int(k.rsplit("@", 1)[1])
+                        later = [w for w in ws if w.epoch >= ep]
+                        if later or not p.raised("NcpFailure"):
+                            bad = f"R05.5 link state read as FAILED but the send {'writes again' if later else 'does not raise NcpFailure'}"
+            # R05.7 exhaustion
+            fails = [e for e in p.events if e.kind == "call" and e.what.endswith("_enter_failed_state")]
+            notif = [e for e in p.events if upward(e) and e.what.endswith(".reset_received")]
+            last = str(aw[-1].extra) if aw else ""
+            exhausted = len(ws) == N and len(aw) == N and last in ("raises NotAcked", "raises TimeoutError")
+            if not bad:
+                if exhausted and (len(fails) != 1 or len(notif) != 1):
+                    bad = f"R05.7 budget exhausted by {last[7:]} but failed state entered {len(fails)}x, upper layer told {len(notif)}x"
+                elif exhausted and p.terminal != "raise":
+                    bad = "R05.7 budget exhausted but the send returns normally"
+                elif not exhausted and (fails or notif):
+                    bad = f"R05.7 failed state entered although the budget is not exhausted ({len(ws)} writes, last outcome {last})"
+            # R05.8
+            if not bad:
+                if p.terminal == "return" and not (aw and aw[-1].extra is True):
+                    bad = f"R05.8 send returns normally although its last wait ended with {last or 'nothing'}"
+                elif p.terminal == "raise" and aw and aw[-1].extra is True and not any(v == ns["FAILED"] for _, v in p.assumes):
+                    bad = f"R05.8 acknowledged send raises {p.value!r}"
+                elif p.store["self"].get("_pending_data_frames") != {}:
+                    bad = f"R05.8 pending entry left behind: {p.store['self'].get('_pending_data_frames')!r}"
+            # after a NAK or timeout (not last) the very next event of interest is another gate+write or a raise
+            if not bad:
+                for i, e in enumerate(aw[:-1]):
+                    if str(e.extra) in ("raises NcpFailure", "raises CancelledError") or e.extra is True:
+                        bad = f"R05.8 attempt continues after outcome {e.extra!r}"
+            # R05.9 semaphore
+            if not bad:
+                for w in ws:
+                    if not any(c.endswith("_send_data_frame_semaphore") for c in w.ctx):
+                        bad = "R05.9 DATA write outside the transmit-window semaphore"
+                for e in aw:
+                    if not any(c.endswith("asyncio_timeout") for c in e.ctx):
+                        bad = "R05.4 acknowledgement wait is not inside asyncio_timeout"
+            if bad:
+                ctx.violation(f"_send_data_frame:{bad.split(' ')[0]}", f"path [{pid}]: {bad}", func=f, trace=p.trace(90),
+                              construct=bad.split(" ")[0])
+            else:
+                ctx.ok(1, pid)
+        # paths abandoned by the explorer's loop bound: an attempt loop that is still writing DATA frames after the budget
+        # is a violation in its own right (the loop is not bounded by ACK_TIMEOUTS)
+        for p in px.truncated_paths:
+            n_w = len(send_writes(p))
+            if n_w > N:
+                ctx.violation("_send_data_frame:R05.1", f"R05.1 the attempt loop is still writing after {n_w} DATA writes "
+                              f"(budget {N}); outcomes so far: {[str(e.extra) for e in send_awaits(p)][:12]}", func=f,
+                              trace=p.trace(60), construct="R05.1")
+                break
     # timeout argument is the adaptive timeout
     for p in paths[:50]:
         for e in p.events:
